@@ -128,6 +128,9 @@ def run(ctx):
             cases.append(("partial-layout", common.normalize(tgp.any())))
     reqs, exp = [], []
     for origin, d in cases:
+        if rng.random() < 0.06:
+            trees.poison(rng, d, I.aht.auto_head_tail)     # the module-level singleton gives up half-way on a call
+            ctx.count("history: call that fails half-way")
         o = common.load_tree(d)
         snap = trees.snapshot(o)
         info = {"tree": d, "origin": origin}
